@@ -305,6 +305,10 @@ func runCtrlScenario(t *testing.T, tr *tracer, idx int, seed uint64, mode string
 			if w.srv.ListLatency > time.Hour {
 				w.srv.ListLatency = time.Second
 			}
+			if w.period <= time.Minute && mode != "c04" && r.Chance(1, 3) {
+				// every list slower than the refresh period: the results must still arrive, one after the other
+				w.srv.ListLatency = w.period * 3 / 2
+			}
 		}
 		w.srv.ListFault = func(n int) (runtime.Object, error, bool) {
 			if w.slowSync && n == w.listFaultAt-1 {
